@@ -640,6 +640,10 @@ def emit_fn(root, d, log_all):
         head, ret, wh = d["sig"], "", ""
         log.append({"rule": "R10", "note": "signature of the slice supplied by the template: " + d["sig"]})
     out = f"{attrs}{vis}{head}{ret}{wh}\n{spec}\n{body}\n"
+    if CANARY:
+        # in the vacuity run the original function is not re-verified (the main run does that): its
+        # contract is kept for its callers, its body is skipped
+        out = "#[verifier::external_body]\n" + out
     if CANARY and not d.get("nopub"):
         # vacuity guard: a renamed copy with `false` among its ensures; callees keep their real
         # contracts, so the copy must FAIL unless the precondition is contradictory
